@@ -335,6 +335,56 @@ func Child(seed int64, tier, stateFile string, rounds int, saveMs int, compress 
 		if !checkSnaps() {
 			return
 		}
+		// 2b. many multi-output records, then a block that spends some outputs of each of them: more than 32
+		// touched transactions => UnspentDB.commit runs several delete workers in parallel on partially spent
+		// records (and several insert workers for the block before)
+		if !bad && len(txs) >= 40 {
+			h2 := s.Ref.Tip.Height + 1
+			var recs []*refchain.Tx
+			var fees2 uint64
+			for _, pt := range txs {
+				v := pt.Out[0].Value
+				nn := 3 + r.Intn(5)
+				if v < uint64(nn)*600+100 {
+					continue
+				}
+				os2 := make([]refchain.TxOut, nn)
+				for q := range os2 {
+					os2[q] = refchain.TxOut{Value: (v - 100) / uint64(nn), Script: g.ScriptOf(kinds[r.Intn(len(kinds))], r)}
+				}
+				t := g.Spend([]refchain.OutPoint{{Hash: pt.TxID(), Idx: 0}}, []refchain.Coin{{Value: v, Script: pt.Out[0].Script, Height: h2 - 1}}, os2, 2, 0, nil, -1)
+				fees2 += v - (v-100)/uint64(nn)*uint64(nn)
+				recs = append(recs, t)
+			}
+			if rr, ok := offer(g.Build(chainsim.BlockSpec{Parent: s.Ref.Tip, Txs: recs, Fees: fees2}), "many-records/create"); !ok || rr.Stage != "connected" {
+				return
+			}
+			maybeIdle(s, run, r)
+			var sp []*refchain.Tx
+			var fees3 uint64
+			for _, rt := range recs {
+				nsp := 1 + r.Intn(len(rt.Out)-1) // never all of them: the record survives partially spent
+				first := r.Intn(len(rt.Out) - nsp + 1)
+				var ops []refchain.OutPoint
+				var cs []refchain.Coin
+				var in uint64
+				for q := first; q < first+nsp; q++ {
+					ops = append(ops, refchain.OutPoint{Hash: rt.TxID(), Idx: uint32(q)})
+					cs = append(cs, refchain.Coin{Value: rt.Out[q].Value, Script: rt.Out[q].Script, Height: h2})
+					in += rt.Out[q].Value
+				}
+				sp = append(sp, g.Spend(ops, cs, []refchain.TxOut{g.OutTrue(in - 60)}, 2, 0, nil, -1))
+				fees3 += 60
+			}
+			run.Count("records_partially_spent_in_one_block", int64(len(sp)))
+			if _, ok := offer(g.Build(chainsim.BlockSpec{Parent: s.Ref.Tip, Txs: sp, Fees: fees3}), "many-records/partial-spend"); !ok {
+				return
+			}
+			maybeIdle(s, run, r)
+			if !checkSnaps() {
+				return
+			}
+		}
 		// 3. a small block tree (forks, reorgs, invalid branches) with idle calls inside
 		if !forksmon.OneTree(s, run, r, round) {
 			return
